@@ -7,6 +7,7 @@ Author: Jendrik A. Potyka, Fabian A. Preiss
 import datetime as dt
 import queue
 import threading
+from reprlib import recursive_repr
 from collections.abc import Iterable
 from logging import Logger
 from typing import Any, Callable, Optional
@@ -112,6 +113,7 @@ class Scheduler(BaseScheduler[Job, Callable[..., None]]):
         self.__n_threads = n_threads
         self.__tz_str = check_tzname(tzinfo=tzinfo)
 
+    @recursive_repr()
     def __repr__(self) -> str:
         with self.__jobs_lock:
             return "scheduler.Scheduler({0}, jobs={{{1}}})".format(
